@@ -83,7 +83,14 @@ def build():
 
 
 def harness(args, timeout=1800):
-    rc, out, dt = sh([BIN] + args, timeout=timeout)
+    # (the code under test chats on stderr - "Fetching USD/CAD exchange rates ..." - keep it out of the logs)
+    e = dict(os.environ)
+    t0 = time.time()
+    try:
+        p = subprocess.run([BIN] + args, stdout=subprocess.PIPE, stderr=subprocess.DEVNULL, timeout=timeout, env=e)
+        rc, out, dt = p.returncode, p.stdout.decode("utf-8", "replace"), time.time() - t0
+    except subprocess.TimeoutExpired:
+        rc, out, dt = 124, "TIMEOUT", time.time() - t0
     if rc != 0:
         raise ToolError("harness %s failed rc=%s:\n%s" % (args[0], rc, out[-3000:]))
     return out
